@@ -385,6 +385,9 @@ func (l *Linter) LintFiles(filepaths []string, project *Project) ([]*Error, erro
 	}
 
 	if err := eg.Wait(); err != nil {
+		// Wait for processes still running before returning the error. A fatal error makes a check
+		// return early without waiting for the processes started by the other rules.
+		proc.wait()
 		verifPoint("lint.return.error", "files")
 		return nil, err
 	}
